@@ -105,7 +105,8 @@ def main():
     w('## 10. Validating the monitors: what was done and what came out\n')
     w('1. **Silence.** After every change of the harness the affected checks were run at several seeds, and the\n'
       '   whole set repeatedly: with the final harness every check, quick tier, at VERIF_SEED 1..7, 12..17 and 21..24\n'
-      '   (14 and 15 once more on the last commit; earlier states also 8..11), and the thorough tier at seeds 1, 2 and 3 (earlier states: 1..7), from fresh\n'
+      '   (14 and 15 once more on the last but one commit; C20, whose bare family was extended last, again at quick seeds\n'
+      '   1..9 and thorough seeds 1 and 2; earlier states also 8..11), and the thorough tier at seeds 1, 2 and 3 (earlier states: 1..7), from fresh\n'
       '   processes on the repaired tree, most of the time while seeding agents, mutant matrices or another sweep\n'
       '   loaded the machine: no VIOLATION, no inconclusive exit. `vp check` (fresh copy of the sandbox, setup + all\n'
       '   quick commands): clean. What the sweeps did turn up were defects of the machinery (section 6, "false alarms\n'
